@@ -184,7 +184,17 @@ func Run(c Val) Val {
 			ctl.Here("h.pub")
 		}
 	})
-	ctl.Go("close", func() { s.Close() })
+	closeAs := c.At(9).Int() // 0/1: Stream.Close(); 2: replaced by a new publisher; 3: idle close
+	ctl.Go("close", func() {
+		switch closeAs {
+		case 2:
+			media.VerifCloseAs(s, media.StreamReplaced)
+		case 3:
+			media.VerifCloseAs(s, media.StreamNoConsumer)
+		default:
+			s.Close()
+		}
+	})
 	for i := 0; i < n; i++ {
 		i := i
 		ctl.Go("att:"+strconv.Itoa(i), func() {
